@@ -69,9 +69,9 @@ let rec read (ts:string list) : expr * string list = match ts with
         (match r with ")" :: r -> (Bin (k, a, b), r) | _ -> failwith "bin"))
   | _ -> failwith "read"
 let expr_of (ws:string list) : expr = fst (read (tokens_of (String.concat " " ws)))
-let str_path (p:path) = "[" ^ String.concat "" (List.map (function L -> "L" | R -> "R") p) ^ "]"
+let str_path (p:path) = "[" ^ String.concat "" (List.map (function DL -> "L" | DR -> "R") p) ^ "]"
 let path_of (s:string) : path =
-  let l = ref [] in String.iter (fun c -> match c with 'L' -> l := L :: !l | 'R' -> l := R :: !l | _ -> ()) s; List.rev !l
+  let l = ref [] in String.iter (fun c -> match c with 'L' -> l := DL :: !l | 'R' -> l := DR :: !l | _ -> ()) s; List.rev !l
 let str_exn = function ValueError -> "ValueError" | InvalidSyntax -> "InvalidSyntax" | InvalidExpression -> "InvalidExpression"
   | OutOfTokens -> "OutOfTokens" | UnexpectedBehavior -> "UnexpectedBehavior" | TrailingTokens -> "TrailingTokens"
   | IndexError -> "IndexError" | KeyError -> "KeyError" | OutOfFuel -> "OutOfFuel"
